@@ -20,7 +20,7 @@ InputShapes == {
   <<[k |-> "absent"]>>,                                                \* input with no oneof set
   <<[k |-> "nilsource"]>>, <<[k |-> "nilmap"]>>, <<[k |-> "nilstore"]>>, <<[k |-> "nilparams"]>>,   \* oneof set, inner message nil
   <<[k |-> "source", v |-> "blk"], [k |-> "map", v |-> "a"], [k |-> "store", v |-> "b", mode |-> 1]>> }
-Filters == {"none", "a", "b", "zz", "self", "noquery_a", "nilquery_b"}
+Filters == {"none", "a", "b", "zz", "self", "noquery_a", "nilquery_b", "noquery_zz"}
 Inits == {0, 5, -1, -2}        \* -1 stands for 2^63, -2 for 2^64-1 (the "unset" marker), materialised by the harness
 BinIdx == {0, 1, 5}
 
